@@ -204,7 +204,7 @@ def nanmin_or_nan(vals):
     return min(vals) if vals else np.nan
 
 
-def ref_amp_consistency_from_flanks(F, n, direction='both'):
+def ref_amp_consistency_from_flanks(F, n, direction='both', inf_undefined=False):
     out = np.full(n, np.nan)
     undefined = np.zeros(n, dtype=bool)
     for i in range(1, n - 1):
@@ -212,7 +212,9 @@ def ref_amp_consistency_from_flanks(F, n, direction='both'):
         la = ratio(F[2 * i - 1], F[2 * i])
         nx = ratio(F[2 * i + 1], F[2 * i + 2])
         sel = {'both': [cur, nx, la], 'next': [cur, nx], 'last': [cur, la]}[direction]
-        if any(np.isnan(s) for s in sel):
+        if any(np.isnan(s) or (inf_undefined and np.isinf(s)) for s in sel):
+            # 0/0; and, for flank voltages recomputed from the signal, x/0 whose sign is the sign of a zero voltage difference
+            # (+0.0 vs -0.0 depends on how the difference was formed): the statement defines no value
             undefined[i] = True
         if all(np.isnan(s) for s in [cur, nx, la]):
             out[i] = np.nan
